@@ -36,6 +36,7 @@ RULE += (" Also: close / scope exit during another task's pending read (scenario
 RULE += (' Also: items that happen to be awaitable (payload) through every tool with synchronous arguments: never awaited.')
 RULE += (' Also: tools left after k items over class-based sources whose own aclose suspends, under a loop with and without async generator hooks: no clean-up awaitable is killed, none is pending when aclose() returns, nothing unraisable.')
 RULE += (' Also: synchronous callables whose later results are awaitable payload.')
+RULE += (' Also: large all-synchronous runs (70 000+ items) repeated, driven by hand, inside a running asyncio loop.')
 ASSUMPTIONS = ["a loop that checks identity of every token and reply is at least as strict as any real event loop",
                "C functions called from asyncstdlib code are visible to sys.monitoring CALL events"]
 EXHAUSTIVE = {"quick": False, "thorough": False}
@@ -110,7 +111,7 @@ _MONITORED = {"n": None}
 
 LARGE_TOOLS = ["list", "sum", "max", "map", "zip", "reduce", "accumulate", "islice", "chain", "nlargest", "filter",
                "enumerate", "batched", "takewhile", "pairwise", "zip_longest", "merge", "tee", "groupby", "sorted_key",
-               "any_iter", "cycle", "compress", "starmap", "dict", "set"]
+               "any_iter", "cycle", "compress", "starmap", "dict", "set", "sorted_async_src", "sorted_reverse", "min_async_src"]
 
 
 def cases(tier, seed, shard, nshards):
@@ -132,13 +133,17 @@ def cases(tier, seed, shard, nshards):
             if kk % nshards == shard:
                 yield {"kind": "close-tokens", "tool": name, "k": k, "hooks": "none"}
                 yield {"kind": "close-tokens", "tool": name, "k": k, "hooks": "driver"}
-    sizes = [5000, 20000] if tier == "quick" else [5000, 20000, 70000, 150000]
+    sizes = [5000, 20000, 70000] if tier == "quick" else [5000, 20000, 70000, 150000, 300000]
     k = 0
     for n in sizes:
         for name in LARGE_TOOLS:
             k += 1
             if k % nshards == shard:
                 yield {"kind": "large-sync", "tool": name, "n": n}
+                if n >= 70000:
+                    # the same, driven by hand INSIDE a running asyncio loop: a library that asks asyncio for "the
+                    # running loop" (to off-load work, to yield to it) finds one here
+                    yield {"kind": "large-sync", "tool": name, "n": n, "inside_asyncio": True}
     for m in (1, 2, 7):
         for name in LARGE_TOOLS + ["map_later_payload", "reduce_later_payload", "accumulate_later_payload"]:
             if name == "any_iter":
@@ -888,6 +893,15 @@ def run_large_sync(case, stats):
             return (await A.sorted(data, key=lambda x: -x))[0]
         if tool == "any_iter":
             return len([x async for x in A.any_iter(data)])
+        if tool in ("sorted_async_src", "min_async_src"):
+            async def agen():  # an asynchronous source that never suspends
+                for x in data:
+                    yield x
+            if tool == "min_async_src":
+                return await A.min(agen())
+            return (await A.sorted(agen(), reverse=True))[0]
+        if tool == "sorted_reverse":
+            return (await A.sorted(iter(data), reverse=True))[0]
         if tool == "cycle":
             return len(await A.list(A.islice(A.cycle(range(3)), n)))
         if tool == "compress":
@@ -902,15 +916,30 @@ def run_large_sync(case, stats):
 
     CTX.reset()
     viols = []
-    coro = main()
-    try:
-        surfaced = coro.send(None)
-    except StopIteration:
-        surfaced = StopIteration
+
+    def once():
+        coro = main()
+        try:
+            return coro.send(None)
+        except StopIteration:
+            return StopIteration
+        finally:
+            coro.close()
+
+    if case.get("inside_asyncio"):
+        import asyncio
+
+        async def host():
+            return once()
+
+        surfaced = asyncio.run(host())
+        stats["large_sync_runs_inside_a_running_asyncio_loop"] += 1
+    else:
+        surfaced = once()
     if surfaced is not StopIteration:
-        coro.close()
         viols.append({"key": f"{tool}/suspends-with-sync-arguments",
-                      "msg": f"{tool} over a synchronous input of {n} items suspended, yielding {surfaced!r} to the loop"})
+                      "msg": f"{tool} over a synchronous input of {n} items suspended, yielding {surfaced!r} to the loop"
+                             + (" (driven by hand inside a running asyncio loop)" if case.get("inside_asyncio") else "")})
     if awaited:
         viols.append({"key": f"{tool}/awaits-payload-items",
                       "msg": f"{tool} over items that happen to be awaitable: the library awaited items {awaited[:5]}"})
@@ -1058,7 +1087,8 @@ def run_case(case, stats: Counter):
 
 def finish(stats, tier):
     for need in ("spec_runs", "catalogue_runs", "poke_runs", "pokes_absorbed", "all_sync_runs", "fresh_interpreter_runs",
-                 "suspensions_checked", "asyncstdlib_code_objects_monitored", "large_sync_runs", "module_globals_inspected"):
+                 "suspensions_checked", "asyncstdlib_code_objects_monitored", "large_sync_runs", "module_globals_inspected",
+                 "large_sync_runs_inside_a_running_asyncio_loop"):
         if not stats.get(need):
             return f"deciding counter {need} is zero"
     return None
